@@ -225,6 +225,26 @@ def replay_history(cases):
                                 back = col[0] if col is not None and col.size() == 1 else None
                                 for sig, msg in compare(back, tracks["G"][1], WANT_FULL, "GEO", where):
                                     viol.append(("history/gpx/" + sig, msg, c))
+                                if (ci + si) % 2 == 0:
+                                    # the other GPX layout: a collection written as ONE FILE PER TRACK into a directory and the
+                                    # directory read back - tracks of 3, 1 and 2 observations (a single fix is a track)
+                                    gdir = os.path.join(tmp, "g%d_%d" % (ci, si))
+                                    os.makedirs(gdir)
+                                    many = [mk_track("GEO", nn, (ci + nn) % 4) for nn in (3, 1, 2)]
+                                    for kk, (tt, _d) in enumerate(many):
+                                        tt.tid, tt.uid = "t%d" % kk, "u%d" % kk
+                                    from tracklib.core.track_collection import TrackCollection
+                                    TrackWriter.writeToGpx(TrackCollection([tt for tt, _d in many]), gdir, af=False, oneFile=False)
+                                    colm = TrackReader.readFromFile(gdir, TrackFormat({"ext": "GPX", "srid": "GEO", "type": "trk"}))
+                                    sizes = sorted(colm[i].size() for i in range(colm.size())) if colm is not None else []
+                                    if sizes != [1, 2, 3]:
+                                        viol.append(("history/gpx-directory/track-count", "%s: tracks of 3, 1, 2 observations written one file each, read back sizes %s" % (where, sizes), c))
+                                    else:
+                                        for i in range(colm.size()):
+                                            nn = colm[i].size()
+                                            dd = [d_ for (t_, d_) in many if t_.size() == nn][0]
+                                            for sig, msg in compare(colm[i], dd, WANT_FULL[:nn], "GEO", where + " (directory)"):
+                                                viol.append(("history/gpx-directory/" + sig, msg, c))
                 except (Exception, SystemExit) as ex:
                     if s["exp"] != "unspecified":
                         viol.append(("history/raised/" + s["a"], "%s raised %r" % (where, ex), c))
